@@ -412,4 +412,98 @@ Definition astep (secret : str) (st : astate) (e : aevent) : astate :=
 Definition arun (secret : str) (evs : list aevent) : astate :=
   fold_left (astep secret) evs {| st_revoked := []; st_cleared := [] |}.
 
+(* ---- concurrent confirmations: SingleFlightProvider.Revoke, singleflight_middleware.go:138-145 and
+   internal/pkg/singleflight/singleflight.go:49-76.  The provider the authenticator calls is wrapped:
+   Revoke runs under single.Do("Revoke/" ++ s.AccessToken, ...): while a call for a key is in
+   flight, every other caller with the SAME key makes no call of its own, waits, and receives the
+   leader's error value.  The key is the ACCESS token for every provider, also for Okta whose
+   Revoke sends the REFRESH token.
+   Each critical section of Group.Do is one atomic event: [CReq] = a request reaches the provider layer
+   (becomes leader of a new flight and calls the IdP, or joins the flight of its key), [CDone k] = the
+   flight of key k completes and is removed from the map.  The leader's result is fixed by the IdP's
+   answer to its call, so it is recorded when the flight is opened. ---- *)
+Definition flight_key (s : asession) : str := as_access s.
+
+Record flight := { fl_key : str; fl_token : str; fl_ok : bool }.
+Fixpoint find_flight (k : str) (fl : list flight) : option flight :=
+  match fl with [] => None | f :: r => if str_eqb k (fl_key f) then Some f else find_flight k r end.
+Fixpoint drop_flight (k : str) (fl : list flight) : list flight :=
+  match fl with [] => [] | f :: r => if str_eqb k (fl_key f) then r else f :: drop_flight k r end.
+
+(* Authenticator.SignOut with the provider's Revoke abstracted: [rv s] = (Revoke returned nil, tokens sent) *)
+Definition auth_sign_out_gen (secret : str) (now : Z) (q : areq) (rv : asession -> bool * list str) : aresp :=
+  let plain b := {| r_body := b; r_clears := false; r_revoked := [] |} in
+  match q_method q with
+  | MOther => plain (BGate 405%Z)
+  | m =>
+    if negb (q_in_domain q) then plain (BGate 400%Z)
+    else if negb (valid_signature secret (q_uri q) (q_sig q) (q_ts q) (q_parses q) now) then plain (BGate 400%Z)
+    else
+      match m with
+      | MGet =>
+          match q_cookie q with
+          | ACSealed s => plain (BPage 200%Z (as_email s) (q_uri q) (q_sig q) (q_ts q))
+          | _ => plain (BRedirect (q_uri q))
+          end
+      | _ =>
+          match q_cookie q with
+          | ACNone => plain (BRedirect (q_uri q))
+          | ACJunk => {| r_body := BRedirect (q_uri q); r_clears := true; r_revoked := [] |}
+          | ACSealed s =>
+              let '(ok, sent) := rv s in
+              if ok then {| r_body := BRedirect (q_uri q); r_clears := true; r_revoked := sent |}
+              else {| r_body := BPage 500%Z (as_email s) (q_uri q) (q_sig q) (q_ts q); r_clears := false; r_revoked := sent |}
+          end
+      end
+  end.
+
+(* does this request reach provider.Revoke at all, and with which session *)
+Definition reaches_revoke (secret : str) (now : Z) (q : areq) : option asession :=
+  match q_method q, q_cookie q with
+  | MPost, ACSealed s =>
+      if q_in_domain q && valid_signature secret (q_uri q) (q_sig q) (q_ts q) (q_parses q) now then Some s else None
+  | _, _ => None
+  end.
+
+Record cstate := {
+  cs_flights : list flight;        (* singleflight map: calls in flight *)
+  cs_revoked : list str;           (* IdP: tokens whose revoke call was answered revoked / already revoked *)
+  cs_cleared : list asession }.    (* ghost: sessions whose cookie a response cleared *)
+
+Inductive cevent := CReq (now : Z) (q : areq) | CDone (key : str).
+
+Definition cstep (secret : str) (p : provider) (st : cstate) (e : cevent) : cstate * option aresp :=
+  match e with
+  | CDone k => ({| cs_flights := drop_flight k (cs_flights st); cs_revoked := cs_revoked st; cs_cleared := cs_cleared st |}, None)
+  | CReq now q =>
+      match reaches_revoke secret now q with
+      | None => (st, Some (auth_sign_out_gen secret now q (fun _ => (false, []))))
+      | Some s =>
+          match find_flight (flight_key s) (cs_flights st) with
+          | Some f =>          (* joins the flight: no call of its own, the leader's result *)
+              let r := auth_sign_out_gen secret now q (fun _ => (fl_ok f, [])) in
+              ({| cs_flights := cs_flights st; cs_revoked := cs_revoked st;
+                  cs_cleared := if r_clears r then s :: cs_cleared st else cs_cleared st |}, Some r)
+          | None =>            (* leader: calls the IdP with the provider's token for this session *)
+              let ok := revoke_ok p (q_idp q) in
+              let tok := revoke_token p s in
+              let r := auth_sign_out_gen secret now q (fun _ => (ok, [tok])) in
+              ({| cs_flights := {| fl_key := flight_key s; fl_token := tok; fl_ok := ok |} :: cs_flights st;
+                  cs_revoked := if ok then tok :: cs_revoked st else cs_revoked st;
+                  cs_cleared := if r_clears r then s :: cs_cleared st else cs_cleared st |}, Some r)
+          end
+      end
+  end.
+
+Fixpoint crun_from (secret : str) (p : provider) (st : cstate) (evs : list cevent) : cstate * list aresp :=
+  match evs with
+  | [] => (st, [])
+  | e :: rest =>
+      let '(st1, o) := cstep secret p st e in
+      let '(st2, rs) := crun_from secret p st1 rest in
+      (st2, match o with Some r => r :: rs | None => rs end)
+  end.
+Definition cinit : cstate := {| cs_flights := []; cs_revoked := []; cs_cleared := [] |}.
+Definition crun (secret : str) (p : provider) (evs : list cevent) : cstate * list aresp := crun_from secret p cinit evs.
+
 End Mac.
